@@ -60,8 +60,13 @@ func HarnessC19Skip(api int) {
 
 // HarnessC19Parser: the custom parser is handed each flushed group exactly once (non-empty, single PID, arrival
 // order); skip=false leaves the default output unchanged, skip=true substitutes what it returns, an error surfaces
-func HarnessC19Parser(mode int) {
+// xpid > 0: the stream additionally carries a two-packet unit on that PID (null PID 0x1fff, CAT PID 1, an unlisted PID)
+func HarnessC19Parser(mode, xpid int) {
 	s := c08Stream()
+	if xpid > 0 {
+		u := mkPESPattern(uint16(xpid), 200, true, 5)
+		s.add(u, packetize(u, 3, 184, false))
+	}
 	order, _ := s.expectedOrder()
 	seen := 0
 	marker := &DemuxerData{PID: 0x1abc}
